@@ -91,13 +91,42 @@ func kaScenario(id, K int, interval time.Duration, count int, kind string) strin
 	d := time.Duration(eff)*time.Second + time.Duration(eff)*time.Second/5
 	last := time.Now()
 	active := "ok"
+	if kind == "silentsub" {
+		// the subject subscribes to a busy topic and then sends nothing; a third client publishes to
+		// it every `interval` — traffic TO a client is not activity OF the client
+		topic := []byte(fmt.Sprintf("busy/%d", id))
+		cl.write(wSubscribe(1, [][]byte{topic}, []int{0}))
+		last = time.Now()
+		pub, ok := kaConnect(svr, 3, wConnect{protoName: []byte("MQTT"), version: 4, clean: true, clientID: []byte("busy"), keepAlive: 300})
+		if !ok {
+			return "publisher-refused"
+		}
+		stop := make(chan struct{})
+		defer close(stop)
+		go func() {
+			for i := 0; ; i++ {
+				select {
+				case <-stop:
+					pub.conn.Close()
+					return
+				case <-time.After(interval):
+				}
+				pub.write(wPub{qos: 0, topic: topic, payload: []byte{byte(i)}}.encode())
+			}
+		}()
+		count = 0
+	}
 	for i := 0; i < count; i++ {
-		if cl.waitUntil(func() bool { return cl.eof }, interval) {
+		gap := interval
+		if kind == "irr" && i%2 == 0 {
+			gap = interval * 2 / 5 // irregular rhythm: a short gap, then a long one (all below K)
+		}
+		if cl.waitUntil(func() bool { return cl.eof }, gap) {
 			active = "expired"
 			break
 		}
 		var err error
-		if kind == "ping" {
+		if kind == "ping" || kind == "irr" {
 			err = cl.write([]byte{0xc0, 0x00})
 		} else {
 			err = cl.write(wPub{qos: 0, topic: []byte("t"), payload: []byte{byte(i)}}.encode())
@@ -147,7 +176,8 @@ func genKA(seed int64, n int, tier string, w *bufio.Writer) {
 	r := rand.New(rand.NewSource(seed))
 	fmt.Fprintln(w, "ka reset")
 	type scn struct{ k, iv, cnt int; kind string }
-	fixed := []scn{{1, 0, 0, "ping"}, {1, 400, 4, "ping"}, {1, 500, 3, "pub"}, {1, 2100, 2, "ping"}, {2, 900, 3, "pub"}, {1, 900, 3, "ping"}}
+	fixed := []scn{{1, 0, 0, "ping"}, {1, 400, 4, "ping"}, {1, 500, 3, "pub"}, {1, 2100, 2, "ping"}, {2, 900, 3, "pub"}, {1, 900, 3, "ping"},
+		{1, 300, 0, "silentsub"}, {2, 1900, 4, "irr"}, {1, 950, 4, "irr"}}
 	for i := 0; i < n; i++ {
 		var s scn
 		if i < len(fixed) {
@@ -155,6 +185,12 @@ func genKA(seed int64, n int, tier string, w *bufio.Writer) {
 		} else {
 			k := 1 + r.Intn(2)
 			s = scn{k, 100 + r.Intn(k*2600), 1 + r.Intn(3), pick(r, []string{"ping", "pub"})}
+			switch r.Intn(5) {
+			case 0:
+				s = scn{k, 100 + r.Intn(600), 0, "silentsub"}
+			case 1:
+				s = scn{k, k*1000 - 50 - r.Intn(k*300), 2 + r.Intn(3), "irr"}
+			}
 		}
 		fmt.Fprintf(w, "ka start %d %d %d %d %s\n", i+1, s.k, s.iv, s.cnt, s.kind)
 	}
